@@ -164,7 +164,59 @@ func caseRmSet(sets [][2]interface{}, field string) Case {
 
 func sp(s string) *string { return &s }
 
+// ruletext-exh: EVERY string over a small alphabet up to a length bound, through the splitter (both
+// separators) and the parser — the quote / separator / `=` / `|` bookkeeping has no untried short input
+var exhAlphabet = []byte{'a', ',', '\'', '=', '|', '/'}
+
+func exhLen(tier string) int {
+	if tier == "thorough" {
+		return 8
+	}
+	return 6
+}
+
+func exhString(i, n int) string {
+	// strings of length 0..n in length-lexicographic order
+	k := len(exhAlphabet)
+	for l, cnt := 0, 1; l <= n; l, cnt = l+1, cnt*k {
+		if i < cnt {
+			b := make([]byte, l)
+			for j := l - 1; j >= 0; j-- {
+				b[j] = exhAlphabet[i%k]
+				i /= k
+			}
+			return string(b)
+		}
+		i -= cnt
+	}
+	return ""
+}
+
+func exhCount(n int) int {
+	t, c := 0, 1
+	for l := 0; l <= n; l++ {
+		t += c
+		c *= len(exhAlphabet)
+	}
+	return t
+}
+
 func init() {
+	register(&Stream{
+		Name: "ruletext-exh",
+		Rule: "exhaustive: every string over {a , ' = | /} up to length 6 (quick) / 8 (thorough), through ValidNamesSplit with separator ',' and '/', and through ParseValidNameKV. non-trivial: the string has a quote, a separator, = or |; distinct by request line",
+		EnumSize: func(tier string) int { return 3 * exhCount(exhLen(tier)) },
+		Enum: func(i int, tier string) Case {
+			s := exhString(i/3, exhLen(tier))
+			switch i % 3 {
+			case 0:
+				return caseSplit(s, ',')
+			case 1:
+				return caseSplit(s, '/')
+			}
+			return caseParse(s)
+		},
+	})
 	register(&Stream{
 		Name: "ruletext",
 		Rule: "random byte strings heavy on , ' | = for the splitter; rule items for the parser; builder calls; RM.Set sequences; " +
